@@ -39,8 +39,8 @@ func typeOfArg(e ast.Expr) string {
 	return types.ExprString(e)
 }
 
-func extract(fn *ast.FuncLit) (asserted, conv, decoder string) {
-	ast.Inspect(fn.Body, func(n ast.Node) bool {
+func extract(body ast.Node) (asserted, conv, decoder string) {
+	ast.Inspect(body, func(n ast.Node) bool {
 		switch x := n.(type) {
 		case *ast.TypeAssertExpr:
 			if asserted == "" && x.Type != nil {
@@ -71,6 +71,51 @@ func extract(fn *ast.FuncLit) (asserted, conv, decoder string) {
 							}
 						}
 					}
+				}
+			}
+		}
+		return true
+	})
+	return
+}
+
+// viaHelper reads an entry written as helper(func(x T) ... { ... }) where helper is a function of the same file that
+// builds the argParser around the conversion it is given: the type assertion is the helper's, the conversion (or the
+// decoder) is what the function literal applies to its parameter.  One level only.
+func viaHelper(f *ast.File, call *ast.CallExpr) (asserted, conv, decoder string) {
+	id, ok := call.Fun.(*ast.Ident)
+	if !ok || len(call.Args) != 1 {
+		return
+	}
+	lit, ok := call.Args[0].(*ast.FuncLit)
+	if !ok || lit.Type.Params == nil || len(lit.Type.Params.List) != 1 || len(lit.Type.Params.List[0].Names) != 1 {
+		return
+	}
+	var helper *ast.FuncDecl
+	for _, d := range f.Decls {
+		if fd, ok := d.(*ast.FuncDecl); ok && fd.Recv == nil && fd.Name.Name == id.Name && fd.Body != nil {
+			helper = fd
+		}
+	}
+	if helper == nil || helper.Type.Params == nil || len(helper.Type.Params.List) != 1 || len(helper.Type.Params.List[0].Names) != 1 {
+		return
+	}
+	hparam := helper.Type.Params.List[0].Names[0].Name
+	hAsserted, hConv, hDecoder := extract(helper.Body)
+	// the helper must hand the asserted value to its parameter, either inside the Set(...) or as the decoding step
+	if hConv != hparam && hDecoder != hparam {
+		return
+	}
+	asserted = hAsserted
+	param := lit.Type.Params.List[0].Names[0].Name
+	// decoder: x, err := pkg.F(..., param)
+	_, _, decoder = extract(lit.Body)
+	// conversion: return T(param) [, nil]
+	ast.Inspect(lit.Body, func(n ast.Node) bool {
+		if r, ok := n.(*ast.ReturnStmt); ok && len(r.Results) >= 1 {
+			if c, ok := r.Results[0].(*ast.CallExpr); ok && len(c.Args) == 1 {
+				if a, ok := c.Args[0].(*ast.Ident); ok && a.Name == param {
+					conv = types.ExprString(c.Fun)
 				}
 			}
 		}
@@ -125,10 +170,16 @@ func main() {
 							for _, fe := range v.Elts {
 								if fkv, ok := fe.(*ast.KeyValueExpr); ok && types.ExprString(fkv.Key) == "FromJSON" {
 									if fn, ok := fkv.Value.(*ast.FuncLit); ok {
-										e.asserted, e.conv, e.decoder = extract(fn)
+										e.asserted, e.conv, e.decoder = extract(fn.Body)
 									}
 								}
 							}
+						}
+						if call, ok := kv.Value.(*ast.CallExpr); ok {
+							e.asserted, e.conv, e.decoder = viaHelper(f, call)
+						}
+						if e.asserted == "" {
+							problem = "entry " + e.typ + ": no type assertion found (neither a literal with FromJSON nor a helper taking the conversion)"
 						}
 						entries = append(entries, e)
 					}
@@ -160,6 +211,16 @@ func main() {
 	if *out == "" {
 		fmt.Print(b.String())
 		return
+	}
+	if problem != "" {
+		// The table of this tree cannot be read mechanically (the code was restructured in a way the extractor does
+		// not follow).  The last table that could be read stays in place - the theorem scalar_table_covered is then
+		// about that table - and the model stays tied to the code by the correspondence check (every scalar kind,
+		// out-of-range and fractional values included, on every run).
+		fmt.Println("gentables: table not extractable (" + problem + "); keeping " + *out)
+		if _, err := os.Stat(*out); err == nil {
+			return
+		}
 	}
 	old, _ := ioutil.ReadFile(*out)
 	if string(old) == b.String() {
